@@ -70,6 +70,8 @@ DEFAULT_CFG = {
     "latency": LATENCY,
     "c_supported": None,
     "s_supported": None,
+    "c_max_streams": None,    # (bidi, uni) stream-count limits advertised by the client
+    "s_max_streams": None,
 }
 
 
@@ -337,7 +339,18 @@ class NetSim:
         c = self.ep["c"]
         self._mk_logs(c, self.c_cfg)
         c.conn = QuicConnection(configuration=self.c_cfg)
+        self._apply_stream_limits(c.conn, self.cfg["c_max_streams"])
         self.api(c, "connect", lambda: c.conn.connect(S_ADDR, now=self.now))
+
+    @staticmethod
+    def _apply_stream_limits(conn, lim):
+        """Configuration only: lower the advertised stream-count limits before the transport
+        parameters are serialised (QuicConfiguration has no knob; the suite does the same)."""
+        if lim is None:
+            return
+        for limit, v in ((conn._local_max_streams_bidi, lim[0]), (conn._local_max_streams_uni, lim[1])):
+            limit.value = v
+            limit.sent = v
 
     def api(self, ep, name, fn):
         """Run one public API call on an endpoint, then the sans-IO contract loop."""
@@ -532,6 +545,7 @@ class NetSim:
         s.conn = QuicConnection(configuration=self.s_cfg,
                                 original_destination_connection_id=odcid,
                                 retry_source_connection_id=retry_scid)
+        self._apply_stream_limits(s.conn, self.cfg["s_max_streams"])
         self.log("server_created", d.id)
         return False
 
